@@ -7,9 +7,10 @@
    (send on the one-shot channel, close); [RecvErr sid].  [run V evs] is the state after an
    arbitrary event list [evs]; the validator is the published rule set [rules_validators]
    (model/Rules.v). *)
-From Coq Require Import List NArith ZArith Bool.
+From Coq Require Import String List NArith ZArith Bool.
 From MevVerif Require Import lib.Bytes model.Rules model.ProviderSvc proofs.ProviderSvc_proofs.
-From MevVerif Require check.Check_C12 proofs.Check_C12_proofs proofs.Check_C12_fields proofs.Check_C12_delivery.
+From MevVerif Require check.Check_C12 proofs.Check_C12_proofs proofs.Check_C12_fields proofs.Check_C12_delivery
+  proofs.Check_C12_accepts.
 Import ListNotations.
 Open Scope N_scope.
 
@@ -134,8 +135,8 @@ Print Assumptions C12_deliveries_le_decisions.
    prediction, for EVERY op list -- proved for three of its six clauses: "forwarded-invalid", "fields-differ"
    (each forwarded bid is the bid of the first submission of that call, every call forwarded at most once)
    and "stream-ended" (a predicted stream end always has its cause among the ops, the model never panics).
-   The clause "double-delivery" is covered by the next theorem.  Still open: the clauses "leak" and
-   "decision-dropped"; for these the absence of false alarms rests on the runs.  The checker's own bookkeeping registers an expected delivery at the
+   The clause "double-delivery" is covered by the next theorem, the whole checker by
+   C12_checker_accepts_model below (kept: this part needs no premise).  The checker's own bookkeeping registers an expected delivery at the
    callback half of a decision and lets a parked or ended stream read nothing, as the machine does. *)
 Theorem C12_checker_accepts_model_partial : forall i l,
   Check_C12.chk_forwarded_valid (Check_C12_proofs.model_case i l) = true /\
@@ -159,3 +160,102 @@ Theorem C12_checker_accepts_model_double_delivery : forall i l,
   Check_C12.chk_delivery (Check_C12_proofs.model_case i l) = true.
 Proof. exact Check_C12_delivery.checker_accepts_model_delivery. Qed.
 Print Assumptions C12_checker_accepts_model_double_delivery.
+
+(* One-theorem form.  The WHOLE boolean checker of check/Check_C12.v (all six clauses, in the order in which
+   [violation] evaluates them) is silent on the model's own run, for every case number and every op list that
+   satisfies two premises on the op list itself:
+     - no call identifier is submitted twice ([ops_wf]: NoDup of the identifiers of the OSubmit ops) - needed by
+       "double-delivery", see C12_checker_double_submit_refuted;
+     - no OTake reports a call whose hand-off had been abandoned ([takes_clean]: the second conjunct of the
+       clause "leak" is a function of the op list alone, because an OTake op records which call the driver SAW
+       being served) - needed by "leak", and exactly so: C12_checker_accepts_model_iff.
+   The clauses "forwarded-invalid", "fields-differ", "stream-ended", "decision-dropped" and the size half of "leak"
+   need no premise (C12_checker_observation_clauses). *)
+Theorem C12_checker_accepts_model : forall i l,
+  NoDup (map fst (Check_C12.submitted l)) ->
+  Check_C12.taken_after_abandon l [] [] = false ->
+  Check_C12.violation (Check_C12_proofs.model_case i l) = None.
+Proof. exact Check_C12_accepts.checker_accepts_model. Qed.
+Print Assumptions C12_checker_accepts_model.
+
+Theorem C12_checker_accepts_model_iff : forall i l,
+  NoDup (map fst (Check_C12.submitted l)) ->
+  (Check_C12.violation (Check_C12_proofs.model_case i l) = None <->
+   Check_C12.taken_after_abandon l [] [] = false).
+Proof. exact Check_C12_accepts.checker_accepts_model_iff. Qed.
+Print Assumptions C12_checker_accepts_model_iff.
+
+Theorem C12_checker_observation_clauses : forall i l,
+  Check_C12.chk_forwarded_valid (Check_C12_proofs.model_case i l) = true /\
+  Check_C12.chk_fields (Check_C12_proofs.model_case i l) = true /\
+  Check_C12.chk_stream (Check_C12_proofs.model_case i l) = true /\
+  Check_C12.chk_not_dropped (Check_C12_proofs.model_case i l) = true /\
+  (Check_C12.o_pending (Check_C12.ob (Check_C12_proofs.model_case i l)) <=?
+   N.of_nat (length (Check_C12.dedup_bytes (Check_C12.live_digests (Check_C12_proofs.model_case i l))))) = true.
+Proof. exact Check_C12_accepts.checker_accepts_model_observation_clauses. Qed.
+Print Assumptions C12_checker_observation_clauses.
+
+(* What the second premise means: it holds for every op list whose OTake ops are all performed by the machine
+   (the named call is still offered when the op is reached; [takes_effective] replays the machine along the list),
+   i.e. for every op list the machine itself could have produced.  The driver records an OTake only for a call
+   it saw being served. *)
+Theorem C12_checker_accepts_model_effective : forall i l,
+  NoDup (map fst (Check_C12.submitted l)) ->
+  Check_C12_accepts.takes_effective init l = true ->
+  Check_C12.violation (Check_C12_proofs.model_case i l) = None.
+Proof. exact Check_C12_accepts.checker_accepts_model_effective. Qed.
+Print Assumptions C12_checker_accepts_model_effective.
+
+(* Both premises are necessary: with the identifier 1 submitted twice the prediction lists call 1 twice and
+   "double-delivery" counts its one delivery twice; with an OTake of a call abandoned before, "leak" fires
+   whatever the observation is. *)
+Theorem C12_checker_double_submit_refuted :
+  ~ NoDup (map fst (Check_C12.submitted Check_C12_accepts.l_double_submit)) /\
+  Check_C12.taken_after_abandon Check_C12_accepts.l_double_submit [] [] = false /\
+  Check_C12.violation (Check_C12_proofs.model_case 0 Check_C12_accepts.l_double_submit) = Some "double-delivery"%string.
+Proof. exact Check_C12_accepts.double_submit_refuted. Qed.
+Print Assumptions C12_checker_double_submit_refuted.
+
+Theorem C12_checker_take_after_abandon_refuted :
+  NoDup (map fst (Check_C12.submitted Check_C12_accepts.l_take_after_abandon)) /\
+  Check_C12.taken_after_abandon Check_C12_accepts.l_take_after_abandon [] [] <> false /\
+  Check_C12.violation (Check_C12_proofs.model_case 0 Check_C12_accepts.l_take_after_abandon) = Some "leak"%string.
+Proof. exact Check_C12_accepts.take_after_abandon_refuted. Qed.
+Print Assumptions C12_checker_take_after_abandon_refuted.
+(* Non-vacuity: ex_checker_accepts_model (proofs/Check_C12_accepts.v). *)
+
+(* Entries of calls whose context ends AFTER the hand-off.  The end of the context of a call that already got
+   its channel back is no event of the service (the step is the identity), and an entry leaves the map only
+   through a decision for its digest, an abandon of a still-offered call with that digest, or a submission
+   with that digest (which replaces it) ... *)
+Theorem C12_cancel_after_handoff_noop : forall s h b,
+  nget h (calls s) = Some (PHanded b) -> step rules_validators s (Abandon h) = s.
+Proof. exact Check_C12_accepts.cancel_after_handoff_noop. Qed.
+Print Assumptions C12_cancel_after_handoff_noop.
+
+Theorem C12_entry_persists : forall s e d h,
+  In (d, h) (pending s) ->
+  In (d, h) (pending (step rules_validators s e)) \/
+  (exists sid st, e = Lookup sid d st) \/
+  (exists h' b, e = Abandon h' /\ nget h' (calls s) = Some (POffered b) /\ b_dig b = d) \/
+  (exists h' b, e = Submit h' b /\ b_dig b = d).
+Proof. exact Check_C12_accepts.entry_persists. Qed.
+Print Assumptions C12_entry_persists.
+
+(* ... so the map grows by exactly one entry per such call: n well-formed bids with pairwise distinct digests,
+   each submitted under a fresh identifier, handed to an engine stream, then its context ended (the handler of
+   pkg/preconfirmation gives up after 5 s) leave exactly n entries, in this order; every one of these calls got
+   its channel back and nothing was delivered.  Only an engine decision for the digest (or a later bid with an
+   equal digest) ever removes such an entry: the service has no other bound on the size of the map.
+   (Driver class "timeout-after-handoff" observes the same size on the implementation.) *)
+Theorem C12_timeout_after_handoff_leaves_entry : forall hbs : list (N * bid),
+  NoDup (map fst hbs) -> NoDup (map (fun hb => b_dig (snd hb)) hbs) ->
+  (forall hb, In hb hbs -> vbid rules_validators (to_engine (snd hb)) = true) ->
+  let s := run rules_validators (flat_map Check_C12_accepts.handoff_timeout hbs) in
+  pending s = rev (map (fun hb => (b_dig (snd hb), fst hb)) hbs) /\
+  length (pending s) = length hbs /\
+  (forall hb, In hb hbs -> nget (fst hb) (calls s) = Some (PHanded (snd hb)) /\ cget (fst hb) s = CEmpty) /\
+  delivered s = [].
+Proof. exact Check_C12_accepts.timeout_after_handoff_leaves_entry. Qed.
+Print Assumptions C12_timeout_after_handoff_leaves_entry.
+(* Non-vacuity: ex_timeout_after_handoff (proofs/Check_C12_accepts.v). *)
